@@ -129,4 +129,20 @@ CHECKS = {
                 'most 16 pairs (the generator stays far below); sampling of covariate models is covered by C06.',
         'technique': 'Coq proof (is_derive chain rule; sorted-unique list canonical form) + exact vm_compute and CoqInterval correspondence',
     },
+    'C17': {
+        'text': 'Machine-checked, axiom-free proof (Properties/C17.v) over a descriptor model of compositions (kind, '
+                'dimensionality, covariate wrapper with selection): for EVERY composition and number of individuals the '
+                'number of names equals the number of IDs equals n_parameters; the IDs mark exactly the individual-level '
+                'entries; the number of special dimensions is N_dim - N_hdim; with an injective naming scheme whose '
+                'families are disjoint all names are pairwise distinct. Tied to /repo on every run: counts, '
+                'special-dimension ranges and ID patterns of real ComposedPopulationModel / HierarchicalLogLikelihood / '
+                'HierarchicalLogPosterior objects compared by vm_compute (thorough: all ordered pairs of 40 sub-model '
+                'variants x 3 population sizes); evaluation at a vector of the reported length returns a gradient of '
+                'that length; chi\'s actual name strings are checked for distinctness and order; random '
+                'reconfiguration histories on population models, reduced mechanistic models and likelihoods.',
+        'note': 'Trusted: Coq kernel + stdlib, no axioms; Model/Layout.v hand-written; the injectivity premises of '
+                'C17_names_unique are hypotheses of the theorem (chi\'s concrete strings are checked by the harness, not '
+                'proved); controllers and predictive models are covered through the objects they delegate to (C14/C15).',
+        'technique': 'Coq proof (structural induction over compositions) + exact vm_compute correspondence',
+    },
 }
